@@ -1,10 +1,131 @@
 import CollectionsC.Proofs.Rbuf
+/-! # C19 — CC_Rbuf is a bounded FIFO that overwrites only the oldest item
+
+Statements only (helpers live in `Proofs/Rbuf.lean`).  The concrete model `CC.Rbuf`
+(`Model/Rbuf.lean`) mirrors `src/cc_ring_buffer.c` field by field; the abstract spec
+`CC.Spec.Fifo` is a list with a capacity.  Quantifiers: every capacity ≥ 1, every item value,
+every finite enqueue/dequeue history, every allocator state. -/
 namespace CC.Properties.C19
 open CC
+open CC.Spec.Fifo (Op Out)
 
-theorem enqueue_refines (r : Rbuf) (x : Nat) (m : Mem) (h : r.Inv) :
-    (r.enqueue x m).1.Inv ∧ (r.enqueue x m).2 = m ∧
-    (r.enqueue x m).1.abs = ((Spec.Fifo.mk r.cap r.abs).enqueue x).items :=
-  ⟨Rbuf.enqueue_inv r x m h, Rbuf.enqueue_nofault r x m h, Rbuf.enqueue_abs r x m h⟩
+/-- One step of the concrete model refines one step of the bounded FIFO: same status and
+out-value, abstraction commutes, invariant preserved, capacity fixed, and the step neither
+allocates nor faults (no out-of-bounds slot, no `% 0`). -/
+theorem step_refines (r : Rbuf) (op : Op) (m : Mem) (h : r.Inv) :
+    (r.step op m).1 = ((Spec.Fifo.mk r.cap r.abs).step op).1 ∧
+    (r.step op m).2.1.abs = ((Spec.Fifo.mk r.cap r.abs).step op).2.items ∧
+    (r.step op m).2.1.Inv ∧ (r.step op m).2.1.cap = r.cap ∧ (r.step op m).2.2 = m := by
+  cases op with
+  | enqueue x =>
+    refine ⟨rfl, Rbuf.enqueue_abs r x m h, Rbuf.enqueue_inv r x m h, rfl, Rbuf.enqueue_nofault r x m h⟩
+  | dequeue =>
+    have hr := Rbuf.dequeue_refines r m h
+    refine ⟨?_, hr.2.2, Rbuf.dequeue_inv r m h, ?_, Rbuf.dequeue_nofault r m h⟩
+    · simp only [Rbuf.step, Spec.Fifo.step]; rw [hr.1, hr.2.1]
+    · simp only [Rbuf.step, Rbuf.dequeue]; split <;> rfl
+
+/-- **C19, all histories.** From any state satisfying the invariant, running any history on the
+model yields exactly the statuses and out-values of the ideal bounded FIFO, and ends in a state
+whose content is the FIFO's content. -/
+theorem history_refines (ops : List Op) (r : Rbuf) (m : Mem) (h : r.Inv) :
+    (r.run ops m).1 = ((Spec.Fifo.mk r.cap r.abs).run ops).1 ∧
+    (r.run ops m).2.1.abs = ((Spec.Fifo.mk r.cap r.abs).run ops).2.items ∧
+    (r.run ops m).2.1.Inv ∧ (r.run ops m).2.2 = m := by
+  induction ops generalizing r m with
+  | nil => exact ⟨rfl, rfl, h, rfl⟩
+  | cons op ops ih =>
+    obtain ⟨h1, h2, h3, h4, h5⟩ := step_refines r op m h
+    have ih' := ih (r.step op m).2.1 (r.step op m).2.2 h3
+    have hspec : (Spec.Fifo.mk (r.step op m).2.1.cap (r.step op m).2.1.abs) = ((Spec.Fifo.mk r.cap r.abs).step op).2 := by
+      rw [h4, h2]
+      cases op <;> simp [Spec.Fifo.step, Spec.Fifo.enqueue, Spec.Fifo.dequeue] <;> split <;> rfl
+    rw [hspec] at ih'
+    simp only [Rbuf.run, Spec.Fifo.run]
+    refine ⟨?_, ih'.2.1, ih'.2.2.1, ?_⟩
+    · rw [h1, ih'.1]
+    · rw [ih'.2.2.2, h5]
+
+/-- **C19 from the constructor.** Every history on a freshly constructed ring buffer of capacity
+`cap ≥ 1` behaves like the ideal bounded FIFO of that capacity. -/
+theorem new_history_refines (cap : Nat) (hc : 0 < cap) (m0 m1 : Mem) (r0 : Rbuf)
+    (hnew : Rbuf.new cap m0 = (.ok, some r0, m1)) (ops : List Op) :
+    (r0.run ops m1).1 = ((Spec.Fifo.empty cap).run ops).1 ∧
+    (r0.run ops m1).2.1.abs = ((Spec.Fifo.empty cap).run ops).2.items ∧
+    (r0.run ops m1).2.2 = m1 := by
+  obtain ⟨hinv, habs, _⟩ := Rbuf.new_ok cap m0 r0 m1 hc hnew
+  have hcap : r0.cap = cap := by
+    unfold Rbuf.new at hnew; dsimp only at hnew
+    split at hnew; · simp at hnew
+    split at hnew; · simp at hnew
+    simp only [Prod.mk.injEq, Option.some.injEq, true_and] at hnew
+    rw [← hnew.1]
+  have := history_refines ops r0 m1 hinv
+  rw [habs, hcap] at this
+  exact ⟨this.1, this.2.1, this.2.2.2⟩
+
+/-! ## The property in its own vocabulary (facts about the ideal FIFO) -/
+
+/-- size never exceeds the capacity -/
+theorem spec_size_le_cap (f : Spec.Fifo) (ops : List Op) (hc : 0 < f.cap) (h : f.items.length ≤ f.cap) :
+    (f.run ops).2.items.length ≤ (f.run ops).2.cap ∧ (f.run ops).2.cap = f.cap := by
+  induction ops generalizing f with
+  | nil => exact ⟨h, rfl⟩
+  | cons op ops ih =>
+    have : (f.step op).2.items.length ≤ (f.step op).2.cap ∧ (f.step op).2.cap = f.cap := by
+      cases op with
+      | enqueue x =>
+        simp only [Spec.Fifo.step, Spec.Fifo.enqueue]
+        split
+        · simp; omega
+        · simp; omega
+      | dequeue =>
+        simp only [Spec.Fifo.step, Spec.Fifo.dequeue]
+        split <;> simp_all <;> omega
+    have ih' := ih (f.step op).2 (by rw [this.2]; exact hc) this.1
+    simp only [Spec.Fifo.run]
+    exact ⟨ih'.1, by rw [ih'.2, this.2]⟩
+
+/-- enqueue into a full buffer discards the oldest held item, and only it -/
+theorem spec_enqueue_full (f : Spec.Fifo) (x : Nat) (h : f.items.length = f.cap) :
+    (f.enqueue x).items = f.items.tail ++ [x] := by
+  simp [Spec.Fifo.enqueue, h]
+
+/-- enqueue below capacity keeps everything and appends -/
+theorem spec_enqueue_room (f : Spec.Fifo) (x : Nat) (h : f.items.length < f.cap) :
+    (f.enqueue x).items = f.items ++ [x] := by
+  simp [Spec.Fifo.enqueue, h]
+
+/-- dequeue returns the oldest held item and removes exactly it -/
+theorem spec_dequeue_oldest (f : Spec.Fifo) (x : Nat) (xs : List Nat) (h : f.items = x :: xs) :
+    f.dequeue = (.ok, some x, { f with items := xs }) := by
+  simp [Spec.Fifo.dequeue, h]
+
+/-- dequeue on an empty buffer reports an error and changes nothing; in the concrete model the
+whole physical state is unchanged as well -/
+theorem dequeue_empty_inert (r : Rbuf) (m : Mem) (h : r.size = 0) :
+    r.dequeue m = (.errOutOfRange, none, r, m) := Rbuf.dequeue_empty r m h
+
+/-- allocation behaviour of the constructor and destructor: a refused request yields no object and
+leaves the ledger balanced; a successful construction owns exactly two blocks, which `destroy`
+releases (C06/C08 part for this container) -/
+theorem new_destroy_ledger (cap : Nat) (m : Mem) :
+    ((Rbuf.new cap m).1 = .ok ∨ (Rbuf.new cap m).1 = .errAlloc) ∧
+    ((Rbuf.new cap m).1 = .errAlloc → (Rbuf.new cap m).2.1 = none ∧ (Rbuf.new cap m).2.2.live = m.live ∧ (Rbuf.new cap m).2.2.fault = m.fault) ∧
+    (∀ r, (Rbuf.new cap m).2.1 = some r → (Rbuf.new cap m).2.2.live = m.live + 2 ∧
+        (r.destroy (Rbuf.new cap m).2.2).live = m.live ∧ (r.destroy (Rbuf.new cap m).2.2).fault = m.fault) := by
+  unfold Rbuf.new; dsimp only
+  cases h1 : m.alloc.1 <;> simp only [Bool.not_false, Bool.not_true, if_true]
+  · have := Mem.alloc_fst_false m h1
+    simp [this]
+  · have e1 := Mem.alloc_fst_true m h1
+    cases h2 : m.alloc.2.alloc.1 <;> simp only [Bool.not_false, Bool.not_true, if_true]
+    · have e2 := Mem.alloc_fst_false m.alloc.2 h2
+      simp [Mem.free, e1, e2]
+    · have e2 := Mem.alloc_fst_true m.alloc.2 h2
+      simp [Rbuf.destroy, Mem.free, e1, e2]
+
+/-! ## Non-vacuity: a wrapped, exactly full buffer satisfies the invariant -/
+example : (Rbuf.mk 3 3 1 1 [8, 6, 7]).Inv ∧ (Rbuf.mk 3 3 1 1 [8, 6, 7]).abs = [6, 7, 8] := by decide
 
 end CC.Properties.C19
